@@ -390,6 +390,21 @@ def check(run):
     except RaiseEx as e:
         ok, why = False, f'raises {e}'
     run.check(ok, 'D3', 'Address.is_b64[history]' if not ok else 'history[second parse re-checks]', why, w_b64)
+    # ... and a damaged text that was refused is refused again when it is presented a second time (nothing learnt from the refused attempt)
+    it = mk_interp(prog)
+    orc = Oracle()
+    orc.choices, orc.widths, orc.labels = [1], [2], ['']
+    it.oracle = orc
+    outcomes = []
+    for attempt in (1, 2, 3):
+        try:
+            it.construct(A, [B64Text(p1, True)], {})
+            outcomes.append('accepted')
+        except RaiseEx as e:
+            outcomes.append(f'raised {e.kind}')
+    ok = outcomes[0].startswith('raised') and all(o == outcomes[0] for o in outcomes)
+    run.check(ok, 'D3', 'Address.is_b64[history: a refused text presented again]' if not ok else 'history[refused text stays refused]',
+              f'the same text whose trailing bytes are not the checksum, three times in a row: {outcomes}', w_b64)
 
     # ------------------------------------------------------------------ D3b burst argument (uses the specification CRC; C18 proves crc16 equal to it)
     def crc16_spec(data):
